@@ -53,7 +53,7 @@ func c09alphabet() []c09op {
 		{"reply", 1}, {"reply", 2}, {"reply", 3}, {"err", 1}, {"unk", 0},
 		{"cancel", 1}, {"cancel", 2}, {"tmo", 0},
 		{"call", 0}, {"rel", 0}, {"stop", 0},
-		{"cbfail", 1}, {"burst", 0},
+		{"cbfail", 1}, {"burst", 0}, {"replyall", 0},
 	}
 }
 
@@ -393,6 +393,19 @@ func (w *c09world) apply(op c09op) {
 				in.outcome = []string{"jerr:-5:" + tok}
 			}
 		}
+	case "replyall":
+		// one batch record answering every outstanding callback, replies side by side, with
+		// a reply nobody waits for at either end
+		parts := []string{fmt.Sprintf(`{"jsonrpc":"2.0","id":778,"result":%q}`, w.token())}
+		for _, in := range w.insts {
+			if in.wireID != "" && in.started && !in.done && !w.stopped {
+				tok := w.token()
+				parts = append(parts, fmt.Sprintf(`{"jsonrpc":"2.0","id":%s,"result":%q}`, in.wireID, tok))
+				in.done, in.outcome = true, []string{"ok:" + tok}
+			}
+		}
+		parts = append(parts, fmt.Sprintf(`{"jsonrpc":"2.0","id":779,"error":{"code":-5,"message":%q}}`, w.token()))
+		rig.Send("[" + strings.Join(parts, ",") + "]")
 	case "unk":
 		rig.Send(fmt.Sprintf(`{"jsonrpc":"2.0","id":777,"result":%q}`, w.token()))
 	case "cancel":
@@ -558,7 +571,7 @@ func c09nontrivial(h []c09op) bool {
 		switch o.kind {
 		case "cb", "ncb", "cbfail", "burst":
 			issued = true
-		case "reply", "err", "cancel", "tmo", "stop", "race", "racestop":
+		case "reply", "err", "cancel", "tmo", "stop", "race", "racestop", "replyall":
 			if issued {
 				return true
 			}
@@ -625,7 +638,7 @@ func c09cases(e vt.Env, yield func(vt.Case) bool) {
 		}
 	}
 	// S: every history up to length 4 over a small alphabet around a Callback whose send failed
-	small := []c09op{{"cbfail", 1}, {"cb", 2}, {"cb", 1}, {"cancel", 1}, {"reply", 2}, {"reply", 1}, {"burst", 0}}
+	small := []c09op{{"cbfail", 1}, {"cb", 2}, {"cb", 1}, {"cancel", 1}, {"reply", 2}, {"reply", 1}, {"burst", 0}, {"replyall", 0}}
 	for a := range small {
 		a := a
 		id := fmt.Sprintf("S/%s *", small[a])
